@@ -26,6 +26,10 @@ NOT_DECIDED = ["adversarial hello/certificate combinations as inputs to rustls",
 ASSUMPTIONS = []
 
 
+class _Done(Exception):
+    pass
+
+
 def run(cx):
     prog = cx.prog
 
@@ -61,12 +65,8 @@ def run(cx):
                 a1 = o.of_operand(c.args[1])
                 ok = term_has_call(a0, "VerifiedPath::end_entity") and term_has_call(a0, "EndEntityCert::verify_for_usage") and is_param(a1, "server_name")
                 return "name_valid(dialled)" if ok else f"name_valid(?{show(a1)[:40]})"
-            if name_matches(c.fn, "core::result::Result::map") and c.dest == 0:
-                r = o.of_operand(c.args[0])
-                cl = o.of_operand(c.args[1])
-                ok = term_has_call(r, "verify_is_valid_for_subject_name") and cl[0] == "agg" and cl[2] in kids \
-                    and [x.fn for x in kids[cl[2]].calls() if not kids[cl[2]].is_cleanup(x.bb)] == ["rustls::verify::ServerCertVerified::assertion"]
-                return "ret=name_valid.map(assertion)" if ok else "ret=map(?)"
+            # (`.map(|_| assertion())` on the name check's result is modelled as control flow by words_of: `assertion!` appears on
+            #  its Ok side only, exactly as in a written-out match)
             if name_matches(c.fn, "ServerCertVerified::assertion"):
                 return "assertion!"
             return None
@@ -90,23 +90,48 @@ def run(cx):
         ws = seq_words(b, call_sym, stmt_sym, extra)
         # `names.iter().find(|n| n == dialled).ok_or(Err)?` and `if !names.iter().any(|n| n == dialled) { return Err }` are the same gate
         def canon(w_):
-            return w_.replace(" ok_or(Err)", "").replace(" unmatched ret=Err <return>", " !err <return>")
+            w_ = w_.replace(" ok_or(Err)", "").replace(" unmatched ret=Err <return>", " !err <return>")
+            return w_.replace(" ret=Ok", "").replace(" ret=Err <return>", " !err <return>")
         ws = {tuple(canon(fmt_word(w)).split(" ")) for w in ws}
-        okw = {fmt_word(w) for w in ws if "!err" not in w and "ret=Err" not in w}
-        ob.require(okw == {canon("prepare sni=DnsName find(server_names==dialled) ok_or(Err) verify_for_usage name_valid(dialled) ret=name_valid.map(assertion) <return>")},
+        okw = {fmt_word(w) for w in ws if "!err" not in w}
+        ob.require(okw == {"prepare sni=DnsName find(server_names==dialled) verify_for_usage name_valid(dialled) assertion! <return>"},
                    "server-cert/ok-path", f"verify_server_cert success paths: {sorted(okw)}", b.path, b.loc())
         errs = {fmt_word(w) for w in ws} - okw
         want = {canon(x) for x in ("prepare !err <return>", "prepare sni=IpAddress ret=Err <return>",
                                    "prepare sni=DnsName find(server_names==dialled) ok_or(Err) !err <return>",
-                                   "prepare sni=DnsName find(server_names==dialled) ok_or(Err) verify_for_usage !err <return>")}
+                                   "prepare sni=DnsName find(server_names==dialled) ok_or(Err) verify_for_usage !err <return>",
+                                   "prepare sni=DnsName find(server_names==dialled) verify_for_usage name_valid(dialled) !err <return>")}
         ob.require(errs == want, "server-cert/err-paths", f"verify_server_cert error paths: {sorted(errs)}", b.path, b.loc())
         ob.set_sample({"body": b.path, "ok": sorted(okw), "err": sorted(errs)})
 
     with cx.ob("C14.2", "R-EDGE", "server side: ClientCertVerified::assertion() only if the verified client certificate is valid for one of server_names") as ob:
+      try:
         b = cx.impl_method(CV, "ClientCertVerifier", "verify_client_cert")
         o = Origins(b)
         kids = {k.path: k for k in prog.children(b)}
         anys = b.calls_to("core::iter::traits::iterator::Iterator::any")
+        if not anys:
+            # the written-out loop: `for name in names { if cert.verify_is_valid_for_subject_name(name).is_ok() { return Ok(assertion()) } } Err(..)`
+            vs = [c for c in b.calls_to("EndEntityCert::verify_is_valid_for_subject_name") if not b.is_cleanup(c.bb)]
+            ob.floor(vs, 1, "verify_is_valid_for_subject_name in verify_client_cert (loop form)", exact=True)
+            nm, cert = o.of_operand(vs[0].args[1]), o.of_operand(vs[0].args[0])
+            ok = term_has_call(nm, "Iterator::next") and mentions_field(nm, "server_names") and mentions_param(nm, "self") and term_has_call(nm, "Iterator::collect") and term_has_call(nm, "Iterator::map")
+            ob.require(ok, "client-cert/names-from-config", f"name checked is {show(nm)[:140]}", b.path)
+            ok = term_has_call(cert, "VerifiedPath::end_entity") and term_has_call(cert, "EndEntityCert::verify_for_usage") and any(v[0] == "variant" and v[2] == "Continue" for v in walk(cert))
+            ob.require(ok, "client-cert/verified-cert", f"certificate checked is {show(cert)[:100]}", b.path)
+            gates = []
+            for sw, subj, labels in find_switch_on(b, lambda s_: any(x[0] == "call" and x[3] == vs[0].bb for x in walk(s_) if x[0] == "call" and len(x) > 3), o):
+                gates += [t_ for t_, ls in labels.items() if ls in ({"true"}, {"Ok"})]
+            asr = b.calls_to("rustls::verify::ClientCertVerified::assertion")
+            ob.floor(asr, 1, "ClientCertVerified::assertion site", exact=True)
+            ob.require(len(gates) == 1 and b.all_paths_pass(0, [asr[0].bb], gates), "client-cert/assert-on-true-edge", "assertion() is reachable without a name of server_names being valid", b.path, b.loc(asr[0].bb))
+            oks = [i for i, bl in enumerate(b.blocks) if not bl.get("cleanup") for s_ in bl["s"] if s_["k"] == "assign" and s_["lhs"] == 0 and s_["rv"].get("variant") == "Ok"]
+            ob.require(len(oks) == 1 and gates and b.all_paths_pass(0, [oks[0]], gates), "client-cert/ok-only-on-true", "Ok(..) is produced without a valid name", b.path)
+            errs = [i for i, bl in enumerate(b.blocks) if not bl.get("cleanup") for s_ in bl["s"] if s_["k"] == "assign" and s_["lhs"] == 0 and s_["rv"].get("variant") == "Err"]
+            ob.require(bool(errs), "client-cert/false-is-err", "no valid name does not return Err", b.path)
+            vf = b.calls_to("EndEntityCert::verify_for_usage")
+            ob.require(len(vf) == 1 and b.dominates(vf[0].bb, vs[0].bb), "client-cert/after-verify", "name check precedes signature verification result", b.path)
+            raise _Done()
         ob.floor(anys, 1, "Iterator::any in verify_client_cert", exact=True)
         it = o.of_operand(anys[0].args[0])
         ok = mentions_field(it, "server_names") and mentions_param(it, "self") and term_has_call(it, "Iterator::collect") and term_has_call(it, "Iterator::map")
@@ -148,6 +173,8 @@ def run(cx):
         # any() itself is dominated by verify_for_usage success (name check on the *verified* cert) -- C01.5 covers assertion
         vf = b.calls_to("EndEntityCert::verify_for_usage")
         ob.require(len(vf) == 1 and b.dominates(vf[0].bb, anys[0].bb), "client-cert/after-verify", "name check precedes signature verification result", b.path)
+      except _Done:
+        pass
 
     with cx.ob("C14.3", "R-FLOW", "name lists: client verifier [primary]; server verifier [primary(, alternate)]; certificates named and registered under their own name") as ob:
         b = cx.body(f"{B}::build")
